@@ -30,7 +30,10 @@ type item struct {
 	data []byte
 	ci   gopacket.CaptureInfo
 	err  error
-	kind int // 0 packet, 1 timeout, 2 other transient, 3 terminal
+	kind int // 0 packet, 1 timeout, 2 other transient, 3 terminal, 4 end of a concatenated sub-source
+	// surface is the error the pull interface shows for this item when it is
+	// not err itself (a concatenation reports plain io.EOF at its very end)
+	surface error
 }
 
 // stub is the data source. Its read blocks (durably, on a bubble channel)
@@ -46,6 +49,24 @@ type stub struct {
 	lastRet              time.Time
 	cancelled            func() bool
 	readsAfterCancelDone int
+	concurrent           int // reads that began while another read was in progress
+	// concatenation of finite sources: the sub-source that must be read now,
+	// reads of a sub-source other than that one
+	curSub, wrongSub int
+}
+
+// sub is one finite data source handed to ConcatFinitePacketDataSources; all
+// subs draw from the one scripted stub, an item of kind 4 ends the current one.
+type sub struct {
+	st  *stub
+	idx int
+}
+
+func (s *sub) ReadPacketData() ([]byte, gopacket.CaptureInfo, error) {
+	if s.idx != s.st.curSub {
+		s.st.wrongSub++
+	}
+	return s.st.read()
 }
 
 func (s *stub) read() ([]byte, gopacket.CaptureInfo, error) {
@@ -53,11 +74,17 @@ func (s *stub) read() ([]byte, gopacket.CaptureInfo, error) {
 		s.afterTerm++
 	}
 	s.reads++
+	if s.pending {
+		s.concurrent++
+	}
 	s.pending = true
 	it := <-s.feed
 	s.pending = false
 	if it.kind == 3 {
 		s.termSeen = true
+	}
+	if it.kind == 4 {
+		s.curSub++
 	}
 	if it.err != nil {
 		return nil, gopacket.CaptureInfo{}, it.err
@@ -96,7 +123,17 @@ func simC16(c *sim.Ctx) {
 	// the channel; the background reader must still stop (drawn here because
 	// nothing after the cancellation may draw from the tape)
 	abandon := cancelAt >= 0 && c.Chance(350)
-	c.Ev("config", b2i(zero), b2i(channel), int64(opt), int64(cancelAt), b2i(abandon))
+	// the data source is a concatenation of 2-4 finite sources (copying sources only)
+	nsub := 0
+	if !zero && c.Chance(250) {
+		nsub = 2 + c.Draw(3)
+	}
+	// the consumer asks for the channel a second time at this step (same channel, no second reader)
+	again := -1
+	if channel && c.Chance(200) {
+		again = c.Draw(20)
+	}
+	c.Ev("config", b2i(zero), b2i(channel), int64(opt), int64(cancelAt), b2i(abandon), int64(nsub), int64(again))
 	bubble.Run(c, func(b *bubble.B) {
 		st := &stub{feed: make(chan item), zeroCopy: zero, shared: make([]byte, 256)}
 		var ps *gopacket.PacketSource
@@ -111,6 +148,12 @@ func simC16(c *sim.Ctx) {
 		}
 		if zero {
 			ps = gopacket.NewZeroCopyPacketSource(st, gopacket.DecodePayload, opts...)
+		} else if nsub > 0 {
+			var subs []gopacket.PacketDataSource
+			for i := 0; i < nsub; i++ {
+				subs = append(subs, &sub{st: st, idx: i})
+			}
+			ps = gopacket.NewPacketSource(gopacket.ConcatFinitePacketDataSources(subs...), gopacket.DecodePayload, opts...)
 		} else {
 			ps = gopacket.NewPacketSource(st, gopacket.DecodePayload, opts...)
 		}
@@ -146,8 +189,32 @@ func simC16(c *sim.Ctx) {
 				c.Fail("channel", "refused", "PacketsCtx", "PacketsCtx panicked for a legal configuration (zero-copy %v, options %d)", zero, opt)
 			}
 		}
-		nextItem := func() item {
-			var it item
+		pendingSubEOF := 0 // sub-sources of a concatenation that have been ended so far
+		nextItem := func() (it item) {
+			defer func() {
+				// through a concatenation, any io.EOF (plain or wrapped) only ends the
+				// current finite source; after the last one the whole reports io.EOF
+				if nsub > 0 && it.err != nil && errors.Is(it.err, io.EOF) {
+					if pendingSubEOF < nsub-1 {
+						if it.kind == 3 {
+							c.Faults["source_terminal_error"]--
+						}
+						it.kind = 4
+						pendingSubEOF++
+						c.Fault("sub_source_eof")
+					} else {
+						it.kind, it.surface = 3, io.EOF
+					}
+				}
+			}()
+			if nsub > 0 && c.Chance(150) {
+				it.kind, it.err = 3, io.EOF
+				if c.Chance(300) {
+					it.err = fmt.Errorf("sub-source: %w", io.EOF)
+				}
+				c.Fault("source_terminal_error")
+				return it
+			}
 			switch c.Weighted(6, 2, 1, 1) {
 			case 0:
 				n := 1 + c.Draw(40)
@@ -198,6 +265,12 @@ func simC16(c *sim.Ctx) {
 			}
 		}
 		terminalReturned := false
+		// what ends the run when the script has not: through a concatenation an
+		// io.EOF would only end the current sub-source
+		var termEOF error = io.EOF
+		if nsub > 0 {
+			termEOF = io.ErrClosedPipe
+		}
 		var pullErrs []error
 		steps := 0
 		idleAdvance := 0
@@ -234,6 +307,24 @@ func simC16(c *sim.Ctx) {
 			}
 			if !channel && terminalReturned && consumer.AtGate() {
 				break
+			}
+			if again >= 0 && steps >= again && consumer.AtGate() {
+				again = -1
+				c.Ev("packets_again")
+				c.Probe("channel_requested_twice")
+				useCtx := steps%2 == 0
+				b.Step(consumer, func() {
+					var ch2 chan gopacket.Packet
+					if useCtx {
+						ch2 = ps.PacketsCtx(context.Background())
+					} else {
+						ch2 = ps.Packets()
+					}
+					if ch2 != ch {
+						consumer.Fail("channel", "second-call-new-channel", "PacketsCtx", "a second call of Packets/PacketsCtx returned a different channel")
+					}
+				})
+				continue
 			}
 			// enabled actions
 			type act int
@@ -276,8 +367,12 @@ func simC16(c *sim.Ctx) {
 				if it.kind == 3 {
 					terminalReturned = true
 				}
-				if it.kind != 0 && !channel {
-					pullErrs = append(pullErrs, it.err)
+				if it.kind != 0 && it.kind != 4 && !channel {
+					if it.surface != nil {
+						pullErrs = append(pullErrs, it.surface)
+					} else {
+						pullErrs = append(pullErrs, it.err) // (the end of a concatenated sub-source is not an error of the whole)
+					}
 				}
 				c.Ev("source_returns", int64(it.kind), int64(len(it.data)))
 				readsBefore := st.reads
@@ -323,6 +418,11 @@ func simC16(c *sim.Ctx) {
 					// the simulator does not own, so nothing after this point may
 					// depend on it (no further tape draws, no further log events).
 					it := nextItem()
+					if it.kind == 4 {
+						// (a sub-source ending here would make the concatenation read
+						// its next source inside the same call: keep the oracle simple)
+						it.kind, it.err = 3, io.ErrClosedPipe
+					}
 					afterCancel = &it
 				}
 				cancel()
@@ -359,7 +459,7 @@ func simC16(c *sim.Ctx) {
 					if st.pending {
 						terminalReturned = true
 						st.termSeen = true
-						st.feed <- item{kind: 3, err: io.EOF}
+						st.feed <- item{kind: 3, err: termEOF}
 					} else if consumer.AtGate() && !closed {
 						b.Step(consumer, consume)
 					} else {
@@ -368,7 +468,7 @@ func simC16(c *sim.Ctx) {
 				}
 			}
 			if cancelled && st.pending {
-				it := item{kind: 3, err: io.EOF}
+				it := item{kind: 3, err: termEOF}
 				if afterCancel != nil {
 					it = *afterCancel
 				}
@@ -432,9 +532,18 @@ func simC16(c *sim.Ctx) {
 			}
 		}
 		if !channel && st.pending {
-			st.feed <- item{kind: 3, err: io.EOF}
-			pullErrs = append(pullErrs, io.EOF)
+			st.feed <- item{kind: 3, err: termEOF}
+			pullErrs = append(pullErrs, termEOF)
 			b.Settle()
+		}
+		if st.concurrent > 0 {
+			c.Fail("once", "concurrent-source-reads", "PacketSource", "the data source was read %d times while another read was still in progress (a second background reader?)", st.concurrent)
+		}
+		if st.wrongSub > 0 {
+			c.Fail("concat", "wrong-source-read", "ConcatFinitePacketDataSources", "%d reads went to a finite source other than the current one (an exhausted one read again, or one skipped)", st.wrongSub)
+		}
+		if nsub > 0 {
+			c.Probe("concatenated_sources")
 		}
 		// ---- order / once / intact ----
 		want := sent
